@@ -45,7 +45,7 @@ AFTER = {"Coll": [None, {"p": "slice:FloatMultiplyOperation:FloatDataCollection"
 def c03_case(draw):
     kind = draw(st.sampled_from(["source", "operation", "probe"]))
     wrapped = draw(st.sampled_from(gen.SWEEPABLE[kind]))
-    sw = draw(gen.sweep_spec(wrapped, rich=True))
+    sw = draw(gen.sweep_spec(wrapped, rich="numpy"))
     for v in sw["vars"].values():
         if v["kind"] == "values" and len(v["values"]) != 2 and draw(st.booleans()):
             v["form"] = "list"
@@ -134,7 +134,7 @@ def _api_pipeline(case):
         vars_ = {}
         for name, v in sw["vars"].items():
             if v["kind"] == "values":
-                vars_[name] = SequenceSpec(list(v["values"]))
+                vars_[name] = SequenceSpec(M.real_values(v))
             elif v["kind"] == "ctx":
                 vars_[name] = FromContext(v["key"])
             else:
